@@ -1424,6 +1424,9 @@ def _c16_registry(add, tier, TO):
     q("C16", "c16_atomic_rejected_vs_two_recv_n2", "quick", "AtomicMove", 2, 2, ["recv", "recv"], [["send"], ["send"]])
     q("C16", "c16_fullsync_two_rejected_vs_consumer_n2", "quick", "FullSyncMove", 2, 2, ["recv"], [["send"], ["send"]])
     q("C16", "c16_zc_atomic_rejected_vs_consumer_n2", "quick", "AtomicZeroCopy", 2, 2, ["recv"], [["send"], ["send"]])
+    # the pool is exhausted although the QUEUE is not full (a reserved / held slot): the send must still be rejected promptly
+    q("C16", "c16_zc_atomic_rejected_while_slot_held_n2", "quick", "AtomicZeroCopy", 2, 1, ["reserve"], [["send"]])
+    q("C16", "c16_zc_fullsync_rejected_while_slot_held_n2", "quick", "FullSyncZeroCopy", 2, 1, ["reserve"], [["send"]])
     q("C16", "c16_atomic_three_senders_n2", "thorough", "AtomicMove", 2, 2, ["recv", "recv"], [["send"], ["send"], ["send"]])
     q("C16", "c16_zc_fullsync_rejected_vs_consumer_n2", "thorough", "FullSyncZeroCopy", 2, 2, ["recv"], [["send"], ["send"]])
     # C20: a suspended send_with_async = a reserved, unpublished slot whose owner went away
